@@ -258,63 +258,66 @@ var patterns = map[int][][]int{
 func runComplete(seed uint64, thorough bool) {
 	r := newPRNG(seed)
 	configs := [][2]int{{2, 2}, {3, 2}, {3, 3}, {4, 2}, {4, 3}, {4, 4}}
-	for _, cfg := range configs {
-		N, T := cfg[0], cfg[1]
-		for L := 1; L <= 4; L++ {
-			if !thorough && (N+L)%2 == 1 && !(N == 3 && T == 2) {
-				continue // quick tier: half of the (N, L) grid, the repository's own (3,2) always
-			}
-			order := identityOrder(N)
-			if r.chance(1, 2) { // another start (= delivery) order of the DKG
-				for i := N - 1; i > 0; i-- {
-					j := r.intn(i + 1)
-					order[i], order[j] = order[j], order[i]
+	rounds := 1
+	if thorough {
+		rounds = 5
+	}
+	for round := 0; round < rounds; round++ {
+		for _, cfg := range configs {
+			N, T := cfg[0], cfg[1]
+			for L := 1; L <= 4; L++ {
+				order := identityOrder(N)
+				if r.chance(1, 2) { // another start (= delivery) order of the DKG
+					for i := N - 1; i > 0; i-- {
+						j := r.intn(i + 1)
+						order[i], order[j] = order[j], order[i]
+					}
 				}
-			}
-			d := runDKG(N, T, L, r.next(), order)
-			emit(checkDKG(d, order))
-			if !d.ok() {
-				continue
-			}
-			verifier, verr := newVerifier(d)
-			for pi, pattern := range patterns[L] {
-				s := runSession(d, pattern, r.next(), true, pi%2 == 1)
-				req := jStep{Kind: "request", N: N, T: T, L: L, Pattern: pattern, Accept: s.okAll}
-				emit(req)
-				if !s.okAll {
+				d := runDKG(N, T, L, r.next(), order)
+				emit(checkDKG(d, order))
+				if !d.ok() {
 					continue
 				}
-				subs := subsets(N, T, N)
-				// one subset also in reversed order (the prover takes any order of signers)
-				if len(subs) > 0 {
-					last := subs[len(subs)-1]
-					rev := make([]uint16, len(last))
-					for i := range last {
-						rev[i] = last[len(last)-1-i]
-					}
-					if len(rev) > 1 {
-						subs = append(subs, rev)
-					}
-				}
-				for _, signers := range subs {
-					st := jStep{Kind: "pok", N: N, T: T, L: L, Pattern: pattern, Signers: u16s(signers)}
-					raw, _, err, pan, what := provePoK(s, signers)
-					if pan || err != nil {
-						st.Panic, st.Err = pan, what+errStr(err)
-						emit(st)
+				verifier, verr := newVerifier(d)
+				for pi, pattern := range patterns[L] {
+					s := runSession(d, pattern, r.next(), true, pi%2 == 1)
+					req := jStep{Kind: "request", N: N, T: T, L: L, Pattern: pattern, Accept: s.okAll}
+					emit(req)
+					if !s.okAll {
 						continue
 					}
-					if verr != nil {
-						st.Err = "verifier init: " + verr.Error()
+					subs := subsets(N, T, N)
+					// one subset also in reversed order (the prover takes any order of signers)
+					if len(subs) > 0 {
+						last := subs[len(subs)-1]
+						rev := make([]uint16, len(last))
+						for i := range last {
+							rev[i] = last[len(last)-1-i]
+						}
+						if len(rev) > 1 {
+							subs = append(subs, rev)
+						}
+					}
+					for _, signers := range subs {
+						st := jStep{Kind: "pok", N: N, T: T, L: L, Pattern: pattern, Signers: u16s(signers)}
+						raw, _, err, pan, what := provePoK(s, signers)
+						if pan || err != nil {
+							st.Panic, st.Err = pan, what+errStr(err)
+							emit(st)
+							continue
+						}
+						if verr != nil {
+							st.Err = "verifier init: " + verr.Error()
+							emit(st)
+							continue
+						}
+						err, st.Panic, st.Err = guard(func() error { return verifier.Verify(raw) })
+						st.Accept = err == nil && !st.Panic
+						if err != nil {
+							st.Err = err.Error()
+						}
 						emit(st)
-						continue
 					}
-					err, st.Panic, st.Err = guard(func() error { return verifier.Verify(raw) })
-					st.Accept = err == nil && !st.Panic
-					if err != nil {
-						st.Err = err.Error()
-					}
-					emit(st)
 				}
 			}
 		}
